@@ -102,7 +102,7 @@ class Fixture(object):
                 self.log("recvfault", sock.name)
                 return ("eof",) if f[1] == "eof" else ("error", errno.ECONNRESET)
             self.log("sendfault", sock.name)
-            return ("error", errno.EPIPE)
+            return ("timeout",) if f[1] == "stimeout" else ("error", errno.EPIPE)
         if self.frag:
             return ("data", self.frag) if op == "recv" else (("accept", self.frag) if op == "send" else None)
         return None
@@ -487,6 +487,8 @@ def campaign(chk, wname, frag, timeout, orders, kinds, stride=1, b_serve_all=Fal
                 opname = next(op for (c, s_, op) in ops if c == pos)
                 if kind == "eof" and opname != "recv":
                     continue
+                if kind == "stimeout" and opname != "send":
+                    continue                    # (a receive that times out is retried: not a failure)
                 if (kind == "pollerr") != (opname == "poll"):
                     continue
                 ev, outc, probs, _, _, _ = run(chk, wname, fault=(pos, kind), frag=frag, timeout=timeout, close_order=order,
@@ -834,14 +836,14 @@ def main():
     traces = []
     total_pos = 0
     if chk.thorough:
-        plan = [(w, None, to, CLOSE_ORDERS, ("error", "eof"), 1, False) for w in WORKLOADS for to in (None, 30)]
-        plan += [(w, frag, None, ["single", "both"], ("error", "eof"), 2, False) for w in WORKLOADS for frag in (7, 2)]
+        plan = [(w, None, to, CLOSE_ORDERS, ("error", "eof", "stimeout"), 1, False) for w in WORKLOADS for to in (None, 30)]
+        plan += [(w, frag, None, ["single", "both"], ("error", "eof", "stimeout"), 2, False) for w in WORKLOADS for frag in (7, 2)]
         plan += [(w, frag, None, ["single"], ("error", "eof"), 1 if frag is None else 3, True) for w in WORKLOADS for frag in (None, 3)]
     else:
         plan = [("sync", None, None, CLOSE_ORDERS, ("error", "eof"), 1, False),
                 ("async", None, None, ["single", "both"], ("error",), 1, False),
                 ("nested", None, None, ["single"], ("error",), 2, False), ("refs", None, None, ["single", "other-first"], ("error",), 3, False),
-                ("sync", 3, None, ["single"], ("error",), 7, False), ("sync", None, 30, ["single"], ("error",), 4, False),
+                ("sync", 3, None, ["single"], ("error", "stimeout"), 5, False), ("async", 3, None, ["single"], ("stimeout",), 3, False), ("sync", None, 30, ["single"], ("error",), 4, False),
                 ("sync", None, None, ["single"], ("error",), 1, True), ("refs", None, None, ["single"], ("error",), 2, True),
                 ("nested", None, None, ["single"], ("error",), 3, True)]
     for stuck in (True, False):
